@@ -1,6 +1,7 @@
 """C14 - machine instructions encode as the target's instruction set defines.
 
-Modelled targets: 4004/4040 and 8080/8085 (Intel syntax) in this file; PIC16C8x, 6502/65C02, Z80, MSP430, AVR as plug-ins (c14t_*.py).
+Modelled targets: 4004/4040 and 8080/8085 (Intel syntax) in this file; PIC16C8x, 6502/65C02, Z80, MSP430, AVR (word- and byte-addressed
+code space), 8080/8085 with Z80SYNTAX ON / EXCLUSIVE (`8080z`) as plug-ins (c14t_*.py).
 Per modelled target the generator enumerates the SPEC's own
 instruction-form list (asked from the Lean driver, mode `c14forms`) x registers/addressing modes x operand
 values (0, field limits, limits +-1, random interior; exhaustive where the field has <= 4096 values) x
